@@ -1,8 +1,9 @@
-import HpoProofs.SubOntology
+import HpoProofs.SubOntologyRun
 /-!
 # C14 — sub-ontologies keep shortest leaf-root chains, induced links, phenotype links
 
-Property theorems only (helper lemmas: `HpoProofs/SubOntology.lean`, `HpoProofs/Path.lean`).
+Property theorems only (helper lemmas: `HpoProofs/SubOntology.lean`, `HpoProofs/SubOntologyRun.lean`,
+`HpoProofs/Path.lean`).
 
 Model: `Onto.subOntology o root leaves` (`HpoModel/SubOntology.lean`, mirroring
 `Ontology::sub_ontology`): collect the leaves and `path_to_ancestor(leaf, root)`
@@ -12,44 +13,184 @@ re-annotate the records of the three kinds (`copyRecs`), information content, `b
 
 Hypotheses: `PathWF o rank` for the SOURCE ontology (parents resolve, `all_parents` = transitive
 closure of `parents` — the conclusion of C01 —, acyclic via a rank function), `root` and every
-leaf are terms of the source (`o.get l.id = some l`).  No bound on sizes.  Theorems about a
-successful call are stated for every `o'` with `o.subOntology root leaves = .ok o'`.
+leaf are terms of the source (`o.get l.id = some l`).  No bound on sizes, except in
+`C14_error_iff`: at most 65 535 records per kind in the source (what
+`calculate_information_content` needs in order not to fail with `TryFromIntError`).  Theorems about
+a successful call are stated for every `o'` with `o.subOntology root leaves = .ok o'`.
+The builder run after the collection stage is analysed in `HpoProofs/SubOntologyRun.lean`
+(`subOntologyOf_run`, `subOntologyOf_total`, `runFacts_of_run`) on top of C01–C03.
 -/
 namespace Hpo.C14
 open Hpo Hpo.Onto
 
 variable {o : Onto} {rank : Nat → Nat}
 
-/-
-Full statement (not proved in full):
-
-  theorem C14_error_iff : (∃ e, o.subOntology root leaves = .err e) ↔ ∃ l ∈ leaves, ¬ Reach o.par l.id root.id
-
-What is missing for it: that the builder run AFTER the collection stage (`connect_all_terms`,
-`annotate_*`, information content) never fails on the induced sub-DAG; that needs the invariants
-of C01 / C02 for the builder model and the bound of 65 535 records per kind
-(`calculate_information_content`).  Proved: the refusal direction in full, and for the other
-direction that the collection stage succeeds with exactly the expected id set, so that the call
-equals the builder run `subOntologyOf` on that set.
--/
-/-- refusal: if some leaf is neither root nor a descendant of root the call fails with
-`NotImplemented`; otherwise the collection stage succeeds and the call is the builder run on the
-collected id set (leaves and their kept chains) -/
-theorem C14_error_iff_partial (wf : PathWF o rank) (root : Term) (leaves : List Term)
-    (hl : ∀ l ∈ leaves, o.get l.id = some l) :
-    ((∃ l ∈ leaves, ¬ Reach o.par l.id root.id) → o.subOntology root leaves = .err .notImplemented) ∧
-    ((∀ l ∈ leaves, Reach o.par l.id root.id) → ∃ ids,
-      o.subOntology root leaves = subOntologyOf o isPhenotype ids ∧ Group.Sorted ids ∧
-      ∀ x, x ∈ ids ↔ ∃ l ∈ leaves, x = l.id ∨ x ∈ o.chosenPath root.id l) ∧
-    (∀ o', o.subOntology root leaves = .ok o' → ∀ l ∈ leaves, Reach o.par l.id root.id) := by
+/-- **Refusal iff a leaf is outside root's subtree; otherwise success.**  For a well-formed source
+(`PathWF o rank`: parents resolve, `all_parents` is the closure — the conclusion of C01 —, acyclic),
+leaves that are terms of the source, and at most 65 535 records per kind (the bound
+`calculate_information_content` needs: counts are converted through `u16`), the call fails with
+`NotImplemented` iff some leaf is neither root nor a descendant of root, and returns `Ok` iff every
+leaf is root or a descendant of root.  (So no other outcome — other error, panic, divergence —
+is possible.)  The builder run after the collection stage never fails: `copyTerms` is a `runB` of
+`new_term` calls on distinct ids < 10^7, `linkInduced` a `runB` of successful `add_parent` calls,
+the induced relation is irreflexive so `connect_all_terms` succeeds (C01), every `annotate_*` is on
+a retained term (C02), and the result has at most as many records per kind as the source (C03). -/
+theorem C14_error_iff (wf : PathWF o rank) (root : Term) (leaves : List Term)
+    (hl : ∀ l ∈ leaves, o.get l.id = some l) (hcount : ∀ k, (o.recs k).length ≤ 65535) :
+    (o.subOntology root leaves = .err .notImplemented ↔ ∃ l ∈ leaves, ¬ Reach o.par l.id root.id) ∧
+    ((∃ o', o.subOntology root leaves = .ok o') ↔ ∀ l ∈ leaves, Reach o.par l.id root.id) := by
   have spec := collectLeaves_spec wf root.id leaves [] hl
-  refine ⟨fun h => ?_, fun h => ?_, fun o' h => ?_⟩
-  · simp [subOntology, subOntologyWith, spec.1 h, Res.bind]
-  · obtain ⟨ids, hc, hs, hm⟩ := spec.2 h
-    refine ⟨ids, by simp [subOntology, subOntologyWith, hc, Res.bind], hs Group.sorted_nil, ?_⟩
-    intro x; rw [hm x]; simp
-  · obtain ⟨ids, f⟩ := subOntology_facts wf hl h
+  have hok : (∀ l ∈ leaves, Reach o.par l.id root.id) → ∃ o', o.subOntology root leaves = .ok o' := by
+    intro h
+    obtain ⟨ids, hc, hs, hm⟩ := spec.2 h
+    have hmem : ∀ x, x ∈ ids ↔ ∃ l ∈ leaves, x = l.id ∨ x ∈ o.chosenPath root.id l := by
+      intro x; rw [hm x]; simp
+    have hres : ∀ x ∈ ids, ∃ t, o.get x = some t := by
+      intro x hx
+      obtain ⟨l, hlm, rfl | hp⟩ := (hmem x).1 hx
+      · exact ⟨l, hl l hlm⟩
+      · exact (chosenPath_spec wf (hl l hlm) (h l hlm)).1.mem_resolves wf hp ⟨l, hl l hlm⟩
+    obtain ⟨o', ho'⟩ := subOntologyOf_total wf isPhenotype (hs Group.sorted_nil).nodup hres hcount
+    exact ⟨o', by simp [subOntology, subOntologyWith, hc, Res.bind, ho']⟩
+  have herr : (∃ l ∈ leaves, ¬ Reach o.par l.id root.id) → o.subOntology root leaves = .err .notImplemented := by
+    intro h; simp [subOntology, subOntologyWith, spec.1 h, Res.bind]
+  refine ⟨⟨fun h => ?_, herr⟩, ⟨fun h => ?_, hok⟩⟩
+  · apply Classical.byContradiction
+    intro hn
+    have hall : ∀ l ∈ leaves, Reach o.par l.id root.id := by
+      intro l hlm
+      apply Classical.byContradiction
+      intro hr; exact hn ⟨l, hlm, hr⟩
+    obtain ⟨o', ho'⟩ := hok hall
+    rw [ho'] at h; cases h
+  · obtain ⟨o', ho'⟩ := h
+    obtain ⟨ids, f⟩ := subOntology_facts wf hl ho'
     exact f.below
+
+/-- the collection stage: when every leaf is root or below root, the call is the builder run
+`subOntologyOf` on the collected id set — the leaves and their kept chains, strictly ascending -/
+theorem C14_collection_stage (wf : PathWF o rank) (root : Term) (leaves : List Term)
+    (hl : ∀ l ∈ leaves, o.get l.id = some l) (h : ∀ l ∈ leaves, Reach o.par l.id root.id) :
+    ∃ ids, o.subOntology root leaves = subOntologyOf o isPhenotype ids ∧ Group.Sorted ids ∧
+      ∀ x, x ∈ ids ↔ ∃ l ∈ leaves, x = l.id ∨ x ∈ o.chosenPath root.id l := by
+  obtain ⟨ids, hc, hs, hm⟩ := (collectLeaves_spec wf root.id leaves [] hl).2 h
+  refine ⟨ids, by simp [subOntology, subOntologyWith, hc, Res.bind], hs Group.sorted_nil, ?_⟩
+  intro x; rw [hm x]; simp
+
+/-- **A successful call is a builder run**: the result is `build_minimal` of
+`calculate_information_content` of an `annotate_*` history (calls `(kind, id, name)` of source
+records on retained terms) on `connect_all_terms` of a `new_term` / `add_parent` history whose
+terms are exactly the retained ids and whose is_a relation is acyclic.  Every theorem of C01, C02,
+C03, C15 and C16 about builder runs therefore applies to the result verbatim. -/
+theorem C14_is_builder_run (wf : PathWF o rank) {root : Term} {leaves : List Term}
+    (hl : ∀ l ∈ leaves, o.get l.id = some l) {o' : Onto}
+    (h : o.subOntology root leaves = .ok o') :
+    ∃ tops aops b2 b3 b7, runB tops {} = some b2 ∧ C01.Acyclic b2 ∧ b2.connectAll = .ok b3 ∧
+      (∀ j, (getT b2.terms j).isSome ↔ (o'.get j).isSome) ∧
+      (∀ op ∈ aops, ∃ k, ∃ r ∈ o.recs k, ∃ t, (o'.get t).isSome ∧ op = .annotate k r.id r.name t) ∧
+      (runA aops b3).calcIc = .ok b7 ∧ o' = b7.buildMinimal := by
+  obtain ⟨ids, tops, aops, b2, b3, b7, f, hrun, pres, hac, hc, hops, h7, e⟩ := subOntology_run wf hl h
+  refine ⟨tops, aops, b2, b3, b7, hrun, hac, hc, ?_, ?_, h7, e⟩
+  · intro j; rw [pres.mem j]; exact f.mem_iff j
+  · intro op hop
+    obtain ⟨k, r, hr, t, ht, e'⟩ := hops op hop
+    exact ⟨k, r, hr, t, (f.mem_iff t).1 ht, e'⟩
+
+/-- **The result again satisfies the conclusions of C01–C03** (it is a builder run):
+* C01 — the ancestor group of every retained term is exactly the transitive closure of the induced
+  parent relation (links of the source between retained terms), strictly ascending;
+* C02 — a record id is on a term iff the record is directly annotated to the term or to one of its
+  descendants; record ids on terms and direct terms of records resolve in the result;
+* C03 — for every term and kind the stored pair is `(n, N)` (`(0,0)` if one is 0) with `n` the
+  number of records on the term and `N` the number of records of the kind, `n ≤ N`, and `n` does not
+  decrease from a term to its ancestors (so the information content −ln(n/N) of `C03_value` is
+  defined, non-negative and monotone). -/
+theorem C14_again (wf : PathWF o rank) {root : Term} {leaves : List Term}
+    (hl : ∀ l ∈ leaves, o.get l.id = some l) {o' : Onto}
+    (h : o.subOntology root leaves = .ok o') :
+    (∀ x t', o'.get x = some t' →
+      (∀ a, a ∈ t'.allParents ↔
+        Relation.TransGen (fun c p => p ∈ o.par c ∧ (o'.get c).isSome ∧ (o'.get p).isSome) x a) ∧
+      Group.Sorted t'.allParents) ∧
+    (∀ k x t', o'.get x = some t' →
+      (∀ r, r ∈ t'.ann k ↔ ∃ rc d, getR (o'.recs k) r = some rc ∧ d ∈ rc.hpos ∧
+        (d = x ∨ ∃ td, o'.get d = some td ∧ x ∈ td.allParents)) ∧
+      (∀ r ∈ t'.ann k, (getR (o'.recs k) r).isSome) ∧ Group.Sorted (t'.ann k)) ∧
+    (∀ k r rc, getR (o'.recs k) r = some rc → ∀ d ∈ rc.hpos, (o'.get d).isSome) ∧
+    (∀ k x t', o'.get x = some t' →
+      (t'.ann k).length ≤ (o'.recs k).length ∧
+      t'.ic k = icPair (o'.recs k).length (t'.ann k).length ∧
+      ∀ a ta, a ∈ t'.allParents → o'.get a = some ta → (t'.ann k).length ≤ (ta.ann k).length) := by
+  obtain ⟨ids, tops, aops, b2, b3, b7, f, hrun, pres, hac, hc, _, h7, e⟩ := subOntology_run wf hl h
+  have F := runFacts_of_run tops b2 b3 hrun hac hc aops b7 h7
+  rw [← e] at F
+  have hget : ∀ j, o'.get j = getT o'.terms j := fun j => get_eq_getT o' j F.small
+  have hrel : (fun c p => p ∈ parentsOf o'.terms c) =
+      fun c p => p ∈ o.par c ∧ (o'.get c).isSome ∧ (o'.get p).isSome := by
+    funext c p
+    rw [← par_eq_parentsOf F.small c]
+    apply propext
+    rw [f.par_iff c p, f.mem_iff c, f.mem_iff p]
+    constructor
+    · rintro ⟨a, b, c⟩; exact ⟨c, a, b⟩
+    · rintro ⟨a, b, c⟩; exact ⟨b, c, a⟩
+  refine ⟨?_, ?_, ?_, ?_⟩
+  · intro x t' hx
+    rw [hget] at hx
+    have hall : allOf o'.terms x = t'.allParents := by simp [allOf, hx]
+    refine ⟨fun a => ?_, ?_⟩
+    · rw [← hall, ← hrel]; exact F.closure x (by simp [hx]) a
+    · rw [← hall]; exact F.sortedAll x
+  · intro k x t' hx
+    rw [hget] at hx
+    have hann : annOf k o'.terms x = t'.ann k := by simp [annOf, hx]
+    refine ⟨fun r => ?_, ?_, ?_⟩
+    · rw [← hann, F.linked k x r]
+      constructor
+      · rintro ⟨d, hd, hu⟩
+        obtain ⟨rc, hrc, hdm⟩ := mem_hposOf.1 hd
+        refine ⟨rc, d, hrc, hdm, ?_⟩
+        rcases hu with hu | hu
+        · exact Or.inl hu
+        · obtain ⟨td, htd, hxm⟩ := mem_allOf.1 hu
+          exact Or.inr ⟨td, by rw [hget]; exact htd, hxm⟩
+      · rintro ⟨rc, d, hrc, hdm, hu⟩
+        refine ⟨d, mem_hposOf.2 ⟨rc, hrc, hdm⟩, ?_⟩
+        rcases hu with hu | ⟨td, htd, hxm⟩
+        · exact Or.inl hu
+        · exact Or.inr (mem_allOf.2 ⟨td, by rw [← hget]; exact htd, hxm⟩)
+    · intro r hr; rw [← hann] at hr; exact F.annRecs k x r hr
+    · rw [← hann]; exact F.sortedAnn k x
+  · intro k r rc hrc d hd
+    rw [hget]; exact F.recTerms k r d (mem_hposOf.2 ⟨rc, hrc, hd⟩)
+  · intro k x t' hx
+    rw [hget] at hx
+    have hann : annOf k o'.terms x = t'.ann k := by simp [annOf, hx]
+    refine ⟨?_, F.ic k x t' hx, ?_⟩
+    · rw [← hann]; exact F.count_le k x
+    · intro a ta ha hta
+      rw [hget] at hta
+      have hann' : annOf k o'.terms a = ta.ann k := by simp [annOf, hta]
+      rw [← hann, ← hann']
+      exact F.count_mono k x a (mem_allOf.2 ⟨t', hx, ha⟩)
+
+/-- … and it is again a well-formed ontology in the sense of C11 and of this file: the hypotheses
+`PathWF`, "at most 65 535 records per kind" and "record ids unique per kind" of the theorems here
+hold for the result (when the count bound holds for the source), so distances / paths (C11) and
+further `sub_ontology` calls on the result are covered by the same theorems -/
+theorem C14_result_wf (wf : PathWF o rank) {root : Term} {leaves : List Term}
+    (hl : ∀ l ∈ leaves, o.get l.id = some l) {o' : Onto}
+    (h : o.subOntology root leaves = .ok o') :
+    (∃ rank', PathWF o' rank') ∧ (∀ k, ((o'.recs k).map (·.id)).Nodup) ∧
+    (∀ k, (o'.recs k).length ≤ (o.recs k).length) := by
+  obtain ⟨ids, tops, aops, b2, b3, b7, f, hrun, pres, hac, hc, hops, h7, e⟩ := subOntology_run wf hl h
+  have F := runFacts_of_run tops b2 b3 hrun hac hc aops b7 h7
+  rw [← e] at F
+  refine ⟨F.pathWF, F.recIds, fun k => ?_⟩
+  rw [e]
+  exact run_count tops b2 b3 hrun hac hc aops b7 h7 o (fun op hop => by
+    obtain ⟨k, r, hr, t, _, e'⟩ := hops op hop
+    exact ⟨k, r, hr, t, e'⟩) k
 
 /-- the result contains root and every leaf (for a non-empty collection of leaves) -/
 theorem C14_contains (wf : PathWF o rank) {root : Term} {leaves : List Term}
@@ -241,23 +382,44 @@ theorem C14_records (wf : PathWF o rank) {root : Term} {leaves : List Term}
     · rw [k3]; exact Group.sorted_insertAll _ _ Group.sorted_nil
 
 /-- The defect that was repaired (`fix: sub_ontology treats a modifier root itself as a modifier
-term`): in `modOnto` (root `1` with the modifier root `5` and the phenotype branch `118 → 200`;
-gene `7` annotated only to the modifier root `5`) with all four terms retained, the filter as
-pinned (`isPhenotypePrefix`: `all_parents & modifier` without the term itself) counts the modifier
-root `5` as a phenotype term, so gene `7` passes; the filter as it stands excludes `5` and gene `7`. -/
+term`), end to end.  `modOnto`: root `1` with the modifier root `5` and the phenotype branch
+`118 → 200`; gene `7` is annotated only to the modifier root `5`, gene `8` to `5` and to the
+phenotype term `200`.  `sub_ontology(root = 1, leaves = [5, 200])` retains all four terms.
+The function as pinned (`subOntologyPrefix`, filter `all_parents & modifier` without the term
+itself) counts the retained modifier root `5` as a phenotype term and KEEPS gene `7`; the function
+as it stands (`subOntology`) drops gene `7` and keeps gene `8`.  Both calls are evaluated in full
+(collection, copy, links, `connect_all_terms`, annotations, information content). -/
 theorem C14_modifier_root_counterexample :
-    ∃ t5, modOnto.get 5 = some t5 ∧ modOnto.isModifier t5 = true ∧
-      phenotypeIds modOnto isPhenotypePrefix [1, 5, 118, 200] = [1, 5, 118, 200] ∧
-      (Group.bitand [5] (phenotypeIds modOnto isPhenotypePrefix [1, 5, 118, 200])).isEmpty = false ∧
-      phenotypeIds modOnto isPhenotype [1, 5, 118, 200] = [1, 118, 200] ∧
-      (Group.bitand [5] (phenotypeIds modOnto isPhenotype [1, 5, 118, 200])).isEmpty = true := by
-  refine ⟨_, rfl, ?_, ?_, ?_, ?_, ?_⟩ <;> decide
+    modOnto.get 1 = some modRoot ∧ modOnto.get 5 = some modLeaf5 ∧ modOnto.get 200 = some modLeaf200 ∧
+    modOnto.isModifier modLeaf5 = true ∧
+    (∀ g ∈ modOnto.genes, g.id = 7 → g.hpos = [5]) ∧
+    -- the filter alone
+    phenotypeIds modOnto isPhenotypePrefix [1, 5, 118, 200] = [1, 5, 118, 200] ∧
+    (Group.bitand [5] (phenotypeIds modOnto isPhenotypePrefix [1, 5, 118, 200])).isEmpty = false ∧
+    phenotypeIds modOnto isPhenotype [1, 5, 118, 200] = [1, 118, 200] ∧
+    (Group.bitand [5] (phenotypeIds modOnto isPhenotype [1, 5, 118, 200])).isEmpty = true ∧
+    -- the whole calls
+    modOnto.subOntologyPrefix modRoot [modLeaf5, modLeaf200] = .ok modSubPrefix ∧
+    modOnto.subOntology modRoot [modLeaf5, modLeaf200] = .ok modSub ∧
+    modSubPrefix.terms.map (·.id) = [1, 5, 118, 200] ∧ modSub.terms.map (·.id) = [1, 5, 118, 200] ∧
+    getR modSubPrefix.genes 7 = some { id := 7, name := ['G'], hpos := [5] } ∧
+    getR modSub.genes 7 = none ∧
+    getR modSub.genes 8 = some { id := 8, name := ['H'], hpos := [5, 200] } ∧
+    annOf .gene modSubPrefix.terms 5 = [7, 8] ∧ annOf .gene modSub.terms 5 = [8] := by
+  refine ⟨?_, ?_, ?_, ?_, ?_, ?_, ?_, ?_, ?_, ?_, ?_, ?_, ?_, ?_, ?_, ?_, ?_, ?_⟩ <;> decide
 
 /-- non-vacuity: the hypotheses hold on `modOnto` (a modifier branch, a phenotype branch, an
 obsolete term with a replacement, genes on a modifier root and on a phenotype term) -/
 example : PathWF modOnto modRank := modOnto_wf
 
 example : ∀ k, ((modOnto.recs k).map (·.id)).Nodup := by intro k; cases k <;> decide
+
+example : ∀ k, (modOnto.recs k).length ≤ 65535 := by intro k; cases k <;> decide
+
+example : ∀ l ∈ [modLeaf5, modLeaf200], modOnto.get l.id = some l := by decide
+
+/-- the successful branch of `C14_error_iff` / `C14_again` / `C14_is_builder_run` is inhabited -/
+example : ∃ o', modOnto.subOntology modRoot [modLeaf5, modLeaf200] = .ok o' := ⟨modSub, by decide⟩
 
 example : ∃ rt l, modOnto.get 1 = some rt ∧ modOnto.get 200 = some l ∧
     collectLeaves modOnto rt.id [l] [] = .ok [1, 118, 200] := ⟨_, _, rfl, rfl, by decide⟩
@@ -267,3 +429,4 @@ example : ∃ rt l, modOnto.get 118 = some rt ∧ modOnto.get 5 = some l ∧
   ⟨_, _, rfl, rfl, by decide⟩
 
 end Hpo.C14
+
